@@ -12,7 +12,7 @@ C = {
    "Every key, every proper prefix, one-byte extensions, all 256 continuations at wide nodes and the root, +-1 substitutions at every position, empty and random probes through raw/Map/Set get/contains_key/contains on the shared case pool, on Default containers and container conversions, and on the FSTs of the history scenarios; ~10^8 probes per quick run.",
    "Model = binary search on the inserted sequence; coverage classes are decoder-derived.", "DESIGN.md#c02"),
  "C03": (True, "exploration", "reference-model monitor (range filter) + online invariant monitor on hooked stream state (H3 lock step)",
-   "All (none|ge|gt) x (none|le|lt) x bound-pair queries over a bound universe incl. absent strings, prefixes, extensions, +-1 mutations and inverted ranges on exhaustive small FSTs, deep random maps and corpora; output compared with the model filter; after construction and after every next() the hooked DFS stack and key buffer must be in lock step; repeated-bound 'last setting wins'.",
+   "All (none|ge|gt) x (none|le|lt) x bound-pair queries over a bound universe incl. absent strings, prefixes, extensions, +-1 mutations and inverted ranges on exhaustive small FSTs, deep random maps, wide nodes (also as version-1 and version-2 files from the reference encoder) and corpora; output compared with the model filter; after construction and after every next() the hooked DFS stack and key buffer must be in lock step; repeated-bound 'last setting wins'.",
    "Bound classes are decided from inputs alone; hook H3 is read-only.", "DESIGN.md#c03"),
  "C04": (True, "exploration", "reference-model monitor (independent DFA run per key) + online invariant monitor on hooked per-frame automaton state (H3); hint-weakening metamorphic coverage",
    "All DFAs with <=2 states over 2 byte classes x all sound hint assignments, sampled/random larger DFAs with weakened hints, shipped automata and combinators (incl. Levenshtein, regex-automata DFAs) x FST sets x bound combinations; results, reported states and every hooked stack frame are compared with an independent run of the automaton; a traversal that never returns is reported by the non-termination monitor (thread CPU time inside one guarded operation).",
@@ -24,7 +24,7 @@ C = {
    "All 9331 call sequences of length <=5 over 6 keys x 4 step-wise front ends and 10 bulk front ends: each call result (variant and payload), bytes_written stability on rejection, and the finished content are compared with a 10-line model; every sequence is additionally replayed on ONE builder under every segmentation into single inserts and bulk calls, so calls following a bulk call that stopped at a rejection are judged too.",
    "Mixed add/insert on one raw builder is outside the statement.", "DESIGN.md#c06"),
  "C07": (True, "fault_enumeration", "event-log monitor on instrumented io::Write sinks: acceptance-schedule enumeration, byte equality with in-memory build, bytes_written vs accepted counter",
-   "For each FST every single-short-write position, every single-Interrupted position, caps 1..16, scripts, random schedules and container sinks; sink bytes must equal the in-memory build, reopen, verify and carry the reference CRC; bytes_written() is compared with the sink's accepted-byte counter after every call, including the call that fails when a capacity-limited sink fills up in the middle of a logical write.",
+   "For each FST every single-short-write position, every single-Interrupted position, caps 1..16, scripts, random schedules and container sinks (the sinks also take gathered writes, applying the schedule across buffer boundaries); sink bytes must equal the in-memory build, reopen, verify and carry the reference CRC; bytes_written() is compared with the sink's accepted-byte counter after every call, including the call that fails when a capacity-limited sink fills up in the middle of a logical write.",
    "Sinks follow the io::Write contract.", "DESIGN.md#c07"),
  "C08": (True, "fault_enumeration", "exhaustive single-byte corruption enumeration + bit-wise reference CRC oracle + synthetic-length sweep of the checksum fast path + subprocess monitor of the command line gate `fst verify`",
    "Every offset x every other byte value on small FSTs (never 'opens and verifies'), sampled bit flips on corpus FSTs, reference masked CRC-32C on every built FST incl. hostile chunking, synthetic images of every length 36..4200 covering all slice-by-16 tail lengths, verdicts that must not carry over (verify, swap the data through map_data or underneath a two-generation container, verify again), images of 4-16 MiB, and `fst verify` (subprocess) over freshly built files and over argument lists in which one file - first, middle or last - is a single-byte mutant.",
@@ -39,28 +39,28 @@ C = {
    "The sink logs which builder call was in progress when the injected fault happened; that call must return Err(Io) (no panic, no Ok, no other error); sessions that never reach the fault must deliver and flush every byte; faults at the start and in the middle of a logical write, device-full sinks, structured error payloads, an output above 64 KiB; command line builds writing to a pipe whose reader went away or to /dev/full must not exit 0.",
    "Interrupted is a retry request (C07); behaviour after an I/O error is not judged.", "DESIGN.md#c11"),
  "C12": (True, "exploration", "hooked premise (cache eviction counter H2) + independent trie/minimal-DFA oracle on the decoded node graph",
-   "For every build: nodes <= trie nodes; when the hooked counters show no eviction: no two reachable nodes share a signature and sets have exactly the minimal DFA's state count; corpora must realise > 50% of achievable sharing (measured 0.78-0.96); also builders filled side by side on one thread.",
+   "For every build: nodes <= trie nodes; when the hooked counters show no eviction: no two reachable nodes share a signature and sets have exactly the minimal DFA's state count; corpora must realise > 50% of achievable sharing (measured 0.78-0.96); also builders filled side by side on one thread, and 700-2500 distinct wide nodes resident in the cache and then repeated.",
    "'No eviction' is observed through the cfg-guarded counters; 'most' is read as > 0.5.", "DESIGN.md#c12"),
  "C13": (True, "exploration", "allocation monitor: counting global allocator around builds streaming to io::sink() at growing N",
    "Peak live heap (decimal, base-64, prefix-chain, grouped-tails, repeated-key and decreasing-value series; short-write sinks; bulk entry points) stays below an a-priori constant from geometry/fan-out/key length, does not move by more than 2% between N=10^6 and 10^7 (3*10^7 thorough), nothing is retained after finish; several geometries via hook H1.",
    "Decides the bounded restatement (scales up to 3*10^7), not 'for all N'.", "DESIGN.md#c13"),
  "C14": (True, "exploration", "allocation monitor: counting global allocator around traversals, set operations and lookups at growing N",
-   "Peak heap (the allocation count is recorded as evidence) of stream/range/search/set-ops (k up to 8) - including operations whose single next() call has to skip ~N candidates (disjoint intersections, cancelling differences, Set relations) - are independent of N in {10^4,10^5,10^6(,10^7)} and under a fixed small constant; open-over-borrowed/mmap + 10^5 lookups allocate exactly 0 times, also on a 69 MB FST; {:?} formatting of a Map/Set is measured as an enumeration.",
+   "Peak heap (the allocation count is recorded as evidence) of stream/range/search/set-ops (k up to 8) - including operations whose single next() call has to skip ~N candidates (disjoint intersections, cancelling differences, Set relations) and operations whose k inputs are collected from a filter over 4,000,000 candidates - are independent of N in {10^4,10^5,10^6(,10^7)} and under a fixed small constant; open-over-borrowed/mmap + 10^5 lookups allocate exactly 0 times, also on a 69 MB FST; {:?} formatting of a Map/Set is measured as an enumeration.",
    "Bounded restatement; constants fixed a priori.", "DESIGN.md#c14"),
  "C15": (True, "exploration", "differential monitor: byte equality across API paths, sinks, repeated runs, 16 concurrent threads and child processes",
-   "Each sequence is built through up to 25 paths (all front ends, unions of partial FSTs streamed into a builder, sinks) and must be byte-identical; cross-thread and cross-process digests incl. tiny cache geometries where evictions occur.",
+   "Each sequence is built through up to 25 paths (all front ends, unions of partial FSTs streamed into a builder, sinks) and must be byte-identical; cross-thread and cross-process digests incl. tiny cache geometries where evictions occur; sequences include hundreds of distinct wide nodes recurring after cache-flushing filler and solved cache-digest collisions.",
    "Determinism is judged per cache geometry.", "DESIGN.md#c15"),
  "C16": (True, "exploration", "reference-model monitor: inverse map oracle over exhaustive small monotone maps",
    "All subsets of {a,b}^<=3 x 6 strictly increasing value shapes (with/without the empty key, zero/non-zero first value), corpora and random monotone maps; every stored value, +-1, extremes and random values through get_key and get_key_into (prefix-preserving); maps also come from builders that were offered repeated and rejected keys in between.",
    "Non-monotone maps are outside the statement.", "DESIGN.md#c16"),
  "C17": (True, "exploration", "reference-model monitor: scalar-value edit distance oracle over an exhaustive multi-byte alphabet scope",
-   "All q in A^<=3 x d<=2 x all k in A^<=3 over an alphabet with 1-4 byte scalars sharing 1/2/3 lead bytes (1.03M triples), Set::search per (q,d), random wide-Unicode strings, three further exhaustive boundary alphabets, every query length 1..40 (+47,48,63,64,65) x distances 1..6, one automaton with > 65536 states, and new_with_limit series (payload, monotonicity, behaviour, number of distinct reachable states counted through the public interface).",
+   "All q in A^<=3 x d<=2 x all k in A^<=3 over an alphabet with 1-4 byte scalars sharing 1/2/3 lead bytes (1.03M triples), Set::search per (q,d), random wide-Unicode strings, five further exhaustive alphabets (encoding-length boundaries, scalars differing only in the lead byte), distances 200..600 through new_with_limit, every query length 1..40 (+47,48,63,64,65) x distances 1..6, one automaton with > 65536 states, and new_with_limit series (payload, monotonicity, behaviour, number of distinct reachable states counted through the public interface).",
    "Keys are valid UTF-8.", "DESIGN.md#c17"),
  "C18": (True, "exploration", "reference language algebra: textbook-constructed reference DFA with exact reachability sets vs the real combinators driven byte by byte",
-   "~67k expressions (all leaves incl. every <=2-state component DFA with every sound hint assignment, unary/binary/depth-2/3 compositions) x all short strings + a representative of every reference state: is_match == membership, can_match false only in dead states, will_always_match true only in all-accepting states; patterns of 31..257 bytes driven by two-point perturbations and guided walks; automata built over one re-used query buffer.",
+   "~67k expressions (all leaves incl. every <=2-state component DFA with every sound hint assignment, unary/binary/depth-2/3 compositions) x all short strings + a representative of every reference state: is_match == membership, can_match false only in dead states, will_always_match true only in all-accepting states; patterns with byte order marks, zero-width characters, blanks, NUL, CR LF, decomposed letters; patterns of 31..257 bytes driven by two-point perturbations and guided walks; automata built over one re-used query buffer.",
    "Component hints are sound by construction (the statement's premise); a brute-force third definition cross-checks the oracle.", "DESIGN.md#c18"),
  "C19": (True, "exploration", "subprocess monitor of the real fst binary with seeded delay injection (hook H4), offline merge-tree trace checker, model-merge oracle; ThreadSanitizer and valgrind memcheck runs (thorough)",
-   "Hundreds (thorough: thousands) of runs of `fst set|map` over 13 input shapes x batch sizes x fd limits x thread counts x merge modes under seeded delays; exit status, verify(), keys, merged values and byte identity with a sorted build (library build and the command line's own --sorted --force build, also over a longer existing file) are judged; a third of the runs keep the scratch directory on another file system; inputs include CRLF, missing final newlines, empty files, BOM-prefixed and NUL-suffixed keys, 6000 batches in one phase; the hooked trace yields the merge tree, and the evidence reports how many distinct trees / worker assignments were observed (213 quick, ~2000 thorough); thorough adds 200 TSan and 30 memcheck runs.",
+   "Hundreds (thorough: thousands) of runs of `fst set|map` over 21 input shapes x batch sizes x fd limits x thread counts x merge modes under seeded delays; exit status, verify(), keys, merged values and byte identity with a sorted build (library build and the command line's own --sorted --force build, also over a longer existing file) are judged; a third of the runs keep the scratch directory on another file system; inputs include CRLF (also 160 KB files whose line endings straddle every multiple of 4096 bytes), missing final newlines, empty files, BOM-prefixed and NUL-suffixed keys, 6000 batches in one phase; the hooked trace yields the merge tree, and the evidence reports how many distinct trees / worker assignments were observed (213 quick, ~2000 thorough); thorough adds 200 TSan and 30 memcheck runs.",
    "Interleavings are sampled, not enumerated; keys need no CSV quoting; a subprocess watchdog is inconclusive.", "DESIGN.md#c19"),
  "C20": (True, "exploration", "catch_unwind totality monitor in a release and an overflow-checked build + Miri (undefined-behaviour interpreter) over 16 shards; auxiliary non-runtime forbid(unsafe_code) compile gate",
    "1.3M (thorough 20M) hostile images (boundary header/footer sweep, random strings, truncations/mutations/extensions of valid FSTs) through open + accessors + verify in two build profiles; Miri interprets the same gate plus bounded traversals of mutated FSTs (panic allowed, UB not) and miniature valid-input operations; the command line gate `fst verify` must end with a verdict (exit 0/1) on several hundred hostile files.",
